@@ -286,7 +286,14 @@ def _override(name, kind, rs):
         m = min(N, 40) if big else 5
         x = rs.rand(m, m, 6)
         y = rs.rand(m, m, 6) + 0.8
-        return {'x': x + x.transpose(1, 0, 2), 'y': y + y.transpose(1, 0, 2), 'thresh': 1.5, 'k': 6}
+        a = {'x': x + x.transpose(1, 0, 2), 'y': y + y.transpose(1, 0, 2), 'thresh': 1.5, 'k': 6}
+        # the input flavours select nbs_bct's configurations: the paired design draws sign flips, not permutations
+        # (seeded change C05-9: that branch took its random numbers from the global generator)
+        if kind == 'bin':
+            a['paired'] = True
+        elif kind == 'dir':
+            a['tail'] = 'left'
+        return a
     if name == 'navigation_wu':
         return {'L': mat(kind, rs), 'D': distmat(kind, rs), 'max_hops': 5}
     if name == 'randomize_graph_partial_und':
